@@ -434,6 +434,9 @@ def check_c15(c, result):
     for n in c.nodes:
         byloc.setdefault((engine.hexs(n['file']), int(n['line']), engine.hexs(n['snippet']), engine.hexs(n['type'])), []).append(n)
     qs = gen_queries(c, N[c.tier]['C15'])
+    # rows must be computed on each combination's OWN entities: two-kind queries whose aliases are prefixes
+    # of one another, without WHERE (many combinations share one entity), selecting from both aliases
+    qs += gen_queries(c, N[c.tier]['C15'] // 3, prefix='p', nkinds=2, collide=True, where=False, npreds=0)
     tq = [(qid, text_of(q, c.rng)) for qid, q in qs]
     res, ip, _ = c.run(tq)
     model = c.model(tq)
@@ -506,6 +509,15 @@ def check_c15(c, result):
             if rc != 0:
                 result.violations.append(payload_replay('C15', 'CLI exited with status %d in mode %s' % (rc, mode), [t], err.decode(errors='replace')[-200:], c.files))
                 break
+            if not outf:
+                # D42: once the scan has returned (the banner `Executing query:` is printed after it) the progress
+                # display must be silent: no clear-screen sequence may follow the banner
+                j = text.rfind('Executing query: ')
+                c.stats['c15_stdout_after_banner_checked'] += 1
+                if j >= 0 and '\x1b[H' in text[j:]:
+                    result.violations.append(payload_replay('C15', 'the progress display wrote into the output after the scan had returned (mode %s)' % mode, [t],
+                                                            repr(text[j:j + 200]), c.files))
+                    break
             if 'json' in mode:
                 # stdout carries the fixed banner before the document
                 i = text.rfind('{"output"')
@@ -558,15 +570,43 @@ def check_c16(c, result):
         for i, (k, a) in enumerate(swapped):
             frm += ([','] if i else []) + [k, 'AS', a]
         neigh.append((qid + '_rebind', ' '.join(toks[:fi] + ['FROM'] + frm + tail)))
+    # short-circuit pairs, always adjacent and in this order: a two-kind query whose condition a later query
+    # repeats verbatim under a FROM that lacks one alias; stand-alone the second cannot compile, so whatever
+    # state the first left behind (compiled program, environment, alias table) shows as rows
+    sc = []
+    def lit(x):
+        return json.dumps(x) if isinstance(x, str) and all(32 <= ord(ch) < 127 and ch not in '"\\' for ch in x) else None
+    mnames = [lit(x) for x in c.vocab.get('method_declaration', {}).get('getName', [])]
+    cnames = [lit(x) for x in c.vocab.get('class_declaration', {}).get('getName', [])]
+    mnames, cnames = [x for x in mnames if x], [x for x in cnames if x]
+    for i in range(min(4 if c.tier == "thorough" else 2, len(mnames), len(cnames) or 0)):
+        mn, cn = mnames[i % len(mnames)], cnames[i % len(cnames)]
+        for j, cond in enumerate(['md.getName() == %s || cd.getName() == %s' % (mn, cn),
+                                  '!(md.getName() != %s && cd.getName() != %s)' % (mn, cn),
+                                  'cd.getName() == %s || md.getName() == %s' % (cn, mn),
+                                  'md.getName() != %s && cd.getName() == %s' % (mn, cn)]):
+            two = 'FROM method_declaration AS md, class_declaration AS cd WHERE %s SELECT md.getName()' % cond
+            sc.append(('sc%d_%d_two' % (i, j), two))
+            sc.append(('sc%d_%d_md' % (i, j), 'FROM method_declaration AS md WHERE %s SELECT md.getName()' % cond))
+            sc.append(('sc%d_%d_cd' % (i, j), 'FROM class_declaration AS cd WHERE %s SELECT cd.getName()' % cond))
+            sc.append(('sc%d_%d_sw' % (i, j), 'FROM class_declaration AS md, method_declaration AS cd WHERE %s SELECT md.getName()' % cond))
+    c.stats['c16_short_circuit_pairs'] = len(sc)
     hist = []
     nrep = 3
     for rep in range(nrep):
         order = base + poison + neigh
         c.rng.shuffle(order)
         hist += [('%s#%d' % (qid, rep), t) for qid, t in order]
+        # each neighbour also directly after the query it was derived from (both orders over the repetitions)
+        bd = dict(base)
+        for nid, nt in neigh:
+            b = nid.rsplit('_', 1)[0]
+            pair = [(b, bd[b]), (nid, nt)] if rep != 1 else [(nid, nt), (b, bd[b])]
+            hist += [('%s#a%d%s' % (qid, rep, nid[-2:]), t) for qid, t in pair]
+        hist += [('%s#%d' % (qid, rep), t) for qid, t in (sc if rep != 1 else sc[::-1])]
     res, ip, graph_after = c.run(hist)
     # stand-alone: every distinct query in a fresh process of its own batch (fresh graph)
-    alone_q = base + poison + neigh
+    alone_q = base + poison + neigh + sc
     res1, ip1, _ = c.run(alone_q)
     model = c.model(alone_q)
     c.tie(alone_q, res1, ip1, model, result)
